@@ -19,10 +19,11 @@ EXTENDS Derive
 CONSTANTS Mode, Tier
 
 Attrs == {"none", "skip", "compact", "encoded_as"}
-Fields == { [ty |-> t, attr |-> a] : t \in {"u8", "u32", "vecu8", "optu16"}, a \in {"none", "skip"} }
+Fields == { [ty |-> t, attr |-> a] : t \in {"u8", "u32", "vecu8", "optu16", "gen", "vecgen"}, a \in {"none", "skip"} }
           \cup { [ty |-> t, attr |-> a] : t \in {"u8", "u32", "u64"}, a \in {"compact", "encoded_as"} }
+          \cup { [ty |-> "gen", attr |-> "compact"] }
 FewFields == { [ty |-> "u8", attr |-> "none"], [ty |-> "u32", attr |-> "compact"], [ty |-> "vecu8", attr |-> "none"],
-               [ty |-> "u16", attr |-> "skip"] }
+               [ty |-> "u16", attr |-> "skip"], [ty |-> "gen", attr |-> "none"], [ty |-> "gen", attr |-> "compact"] }
 FieldSeqs == { <<>> } \cup { <<a>> : a \in Fields } \cup { <<a, b>> : a \in FewFields, b \in FewFields }
              \cup { <<a, b, c>> : a \in FewFields, b \in {[ty |-> "u16", attr |-> "skip"], [ty |-> "optu16", attr |-> "none"]}, c \in FewFields }
 Structs == { [kind |-> "struct", shape |-> sh, transparent |-> FALSE, fs |-> fs] :
